@@ -1,9 +1,24 @@
 (* C13 - Malformed or unsupported server content cannot crash or wedge the client.
    Only the property theorems (each closed by [exact]) and [Print Assumptions]; the model is
-   Model/ClientContent.v, the proofs Proofs/ClientContent{Ops,Fmp4,Main}.v. *)
+   Model/ClientContent.v, the proofs Proofs/ClientContent{Ops,Fmp4,Main,Fixes,NoWedge}.v.
+
+   Which tree is meant. The model is parametrised by the repairs a tree contains
+   ([client_run_gen rp]); /repo CARRIES ALL OF THEM (known_findings.json, kind "fixed"):
+     f8dc8c2        findings 1+2 (rep_tracks): init tracks codecs.FromFMP4 does not know are
+                    dropped, a time scale 0 is an error
+     098dd1f        finding 3 (rep_join): processSegment collects the tokens of finished part
+                    tracks while it pushes
+     8f9d4a5, d590576 + c9db2ec   checkSupport accepts av01./vp09.; trackless fMP4 bodies
+   so the model of /repo as it is now is [client_run_fixed] = [client_run_gen all_repairs] (this is
+   what Tie.repo_repairs makes the correspondence run compare with /repo). The theorems about
+   /repo are c13_playlist_use, c13_content_no_panic_after_repair, c13_no_wedge_after_repair,
+   c13_no_busy_loop_any_tree, c13_checkSupport, c13_empty_*. [client_run] = [client_run_gen
+   no_repairs] is the model of the tree BEFORE f8dc8c2 / 098dd1f; it is kept as a regression
+   witness: c13_refuted, c13_refuted_zero_timescale, c13_wedge_on_valid_content and
+   c13_content_no_panic_partial are statements about that unrepaired model. *)
 From Coq Require Import List ZArith Bool String.
 From GoHls Require Import Model.ClientContent Proofs.ClientContentOps Proofs.ClientContentFmp4
-     Proofs.ClientContentMain Proofs.ClientContentFixes.
+     Proofs.ClientContentMain Proofs.ClientContentFixes Proofs.ClientContentNoWedge.
 Import ListNotations.
 Local Open Scope Z_scope.
 
@@ -13,7 +28,11 @@ Local Open Scope Z_scope.
    expressions the client applies to it (pl.Segments[len-1], Segments[0], segments[index] in
    findSegmentWithInvPosition / findSegmentWithID, variants[i].Codecs/URI, alt.GroupID, *pl.URI,
    Map.URI, PreloadHint.URI, ServerControl.CanSkipUntil, dateTimeOfPreloadHint) panics, given
-   only that the slices hold no nil element. C15 proves Unmarshal establishes [structural_ok]. *)
+   only that the slices hold no nil element. [structural_ok] (no nil slice element) holds of every
+   result of playlist.Unmarshal by construction - it appends only freshly allocated elements; in
+   C15's playlist model the element lists cannot hold nil at all - i.e. by the shape of the
+   playlist model's types (transcription trust + the tie's corpus / index-expression legs), NOT
+   by a C15 theorem. *)
 Theorem c13_playlist_use : forall first pl cur,
   structural_ok first = true -> structural_ok pl = true ->
   is_panic (client_use_playlist first pl cur) = false.
@@ -31,7 +50,9 @@ Proof. exact client_use_playlist_needs_structure. Qed.
 
 (* ---- media content ----
    The full statement "for EVERY parsed init / parts / PMT description the outcome is Deliver,
-   Skip or Err, never Panic" is FALSE on the pinned tree. Two witnesses: *)
+   Skip or Err, never Panic" was FALSE before /repo commit f8dc8c2: it is false of the unrepaired
+   model [client_run] = [client_run_gen no_repairs]. Two witnesses, kept as regression witnesses
+   (for the model of /repo as it is now see c13_content_no_panic_after_repair below): *)
 
 (* DESIGN 7.2 F5: an init track whose codec codecs.FromFMP4 does not know becomes a Track with a
    nil Codec (it is exposed to OnTracks as such), its track processor gets no decodePayload, and
@@ -59,7 +80,7 @@ Theorem c13_f5_nil_codec_no_decoder : forall t, tp_initialize t = None <-> t_cod
 Proof. exact tp_initialize_none. Qed.
 Print Assumptions c13_f5_nil_codec_no_decoder.
 
-(* What holds: for every scenario - any multivariant / media primary playlist, any number of
+(* What held of the unrepaired model [client_run] already: for every scenario - any multivariant / media primary playlist, any number of
    renditions, fMP4 and MPEG-TS mixed in any way, every MPEG-TS codec tag, any track ids
    (permuted, duplicated, unknown, missing), empty parts, no leading-track data, more than 10
    tracks, unparsable inits / segments, any base times, durations, offsets (int64 wrap-around
@@ -79,18 +100,38 @@ Example c13_content_hyp_sat :
        o_decodeErrors := 0; o_end := Ok tt |}.
 Proof. exact valid_plays. Qed.
 
-(* The proposed repair of findings 1 and 2 (findings/C13-*.json: drop init tracks codecs.FromFMP4
-   does not know, reject time scale 0) makes the FULL statement true: for the model of every tree
-   that contains it no hypothesis on the media content is left - every codec tag incl. a nil
-   Codec, empty inits, any time scale. Only the playlist's structural guarantee remains. (The
-   pinned tree is [client_run] = [client_run_gen no_repairs]; Tie.repo_repairs says which tree
-   the correspondence run compares with /repo.) *)
+(* The repair of findings 1 and 2 (/repo commit f8dc8c2: drop init tracks codecs.FromFMP4 does not
+   know, reject time scale 0) makes the FULL statement true: for the model of every tree that
+   contains it - in particular /repo as it is now, [client_run_fixed] - no hypothesis on the media
+   content is left: every codec tag incl. a nil Codec, empty inits, any time scale. Only the
+   playlist's structural guarantee remains. *)
 Theorem c13_content_no_panic_after_repair : forall rp sc el,
   rep_tracks rp = true -> structural_ok (sc_primary sc) = true ->
   is_panic (o_end (client_run_gen rp sc el)) = false.
 Proof. exact client_run_repaired_np. Qed.
 Print Assumptions c13_content_no_panic_after_repair.
 
+(* ---- no wedge ----
+   A run of the model ends in [Err EBlocked] exactly when a goroutine of the client is parked until
+   Close: a push to a track processor stuck in onPartTrackProcessed (finding 3), a rendition waiting
+   for a time converter the leading stream never creates, a pull from a segment queue nobody fills.
+   With the repair of finding 3 (/repo commit 098dd1f, rep_join = true; /repo as it is now:
+   all_repairs) NO input wedges the client: for every repairs record with rep_join = true, every
+   scenario (any primary playlist, any streams, nil elements and unsupported content included - a
+   panic is a different outcome, excluded by the theorem above) and every elapsed time, the run
+   does not end in EBlocked. No hypothesis. (runTraditional's own EBlocked - a playlist request the
+   server never answers - is waiting for the network, not part of a client run over served content.) *)
+Theorem c13_no_wedge_after_repair : forall rp sc el,
+  rep_join rp = true -> o_end (client_run_gen rp sc el) <> Err EBlocked.
+Proof. exact client_run_gen_never_wedges. Qed.
+Print Assumptions c13_no_wedge_after_repair.
+
+Theorem c13_no_wedge_repo : forall sc el, o_end (client_run_fixed sc el) <> Err EBlocked.
+Proof. exact client_run_fixed_never_wedges. Qed.
+Print Assumptions c13_no_wedge_repo.
+
+(* not vacuous: the former wedge input (twelve parts in one segment) now plays to the end, and
+   without rep_join the statement fails (c13_wedge_on_valid_content below) *)
 Example c13_repair_of_wedge :
   client_run_fixed (many_parts 12) 0 =
     {| o_tracks := Some [Some GH264]; o_counts := [[12%nat]]; o_decodeErrors := 0; o_end := Ok tt |}.
@@ -112,9 +153,10 @@ Example c13_needs_parser_guarantees :
   o_end (client_run (one_stream [{| it_id := 1; it_timescale := 90000; it_codec := FNil |}] [1]) 0) = Panic PNilDeref.
 Proof. exact needs_parser_guarantees. Qed.
 
-(* A third finding, not a panic but a wedge: a VALID stream (one supported track) with twelve
-   parts in one segment blocks the fMP4 stream processor until Close (EBlocked: neither EOS nor
-   an error from Wait); see Model jstate. Eleven parts play to the end. *)
+(* The third finding (repaired by /repo commit 098dd1f), about the unrepaired model [client_run]:
+   not a panic but a wedge - a VALID stream (one supported track) with twelve parts in one segment
+   blocks the fMP4 stream processor until Close (EBlocked: neither EOS nor an error from Wait); see
+   Model jstate. Eleven parts play to the end. Kept as a regression witness. *)
 Theorem c13_wedge_on_valid_content : exists sc el,
   mc_wf sc = true /\ all_supported sc = true /\ o_end (client_run sc el) = Err EBlocked.
 Proof. exact wedge_witness. Qed.
